@@ -27,6 +27,7 @@ THEOREMS = [
     "C07.erase_docTrans_partial",
     "C07.erase_docTrans_not_full_bare_annotation",
     "C07.erase_docTrans_not_full_double_string",
+    "C07.erase_docTrans_not_full_bare_name",
     "C07.failure_atomic",
     "C07.failure_leaves_file",
     "C07.write_is_last",
